@@ -93,12 +93,17 @@ pub fn c13(opts: &Opts, out: &mut Out) {
     let lat = lattice(opts, if opts.thorough { 256 } else { 128 }, &mut rng);
     let mut classes = BTreeSet::new();
     for (idx, (n, m, cap, t, class, _seeded, kind)) in lat.pts.iter().enumerate() {
-        for seeded in [false, true] {
+        for variant in 0..3usize {
+            let seeded = variant > 0;
             if seeded && *m != 1 {
                 continue;
             }
-            let inst = fmrun::random_inst(*n, *m, *cap, *t, *class, seeded, &mut rng);
-            let key = format!("{} rng={:?}", inst.describe(), kind);
+            let mut inst = fmrun::random_inst(*n, *m, *cap, *t, *class, seeded, &mut rng);
+            // some seeds are special values: a seed is only ever a hash input, 0, 1 and -1 are seeds like any other
+            if variant == 2 {
+                inst.seed = Some([Scalar::ZERO, Scalar::ONE, -Scalar::ONE][idx % 3]);
+            }
+            let key = format!("{} seedval={} rng={:?}", inst.describe(), inst.seed.map(|x| hs(&x)).unwrap_or("-".into()), kind);
             let Some(o) = observe(&inst, kind) else {
                 out.oracle("C13:prove-ok", false, &key, "prover failed");
                 continue;
